@@ -138,14 +138,15 @@ def covering_removed(ctx, rule, cfg="A"):
         if idx is c10._strip(P) and idx.op == "iter_position":
             continue
         node = c10.covering_node(P)
-        bits = sym_field(sym_field(node, 0), 0)
+        pfx_ = sym_field(node, 0)            # the found Prefix (its derived PartialEq compares the bits)
+        bits = sym_field(pfx_, 0)
         src = idx.args[0] if idx.op == "iter_position" else None
         while src is not None and src.op in ("iter", "cloned_iter", "refv") and src.args:
             src = src.args[0]
         pred = idx.args[1] if idx.op == "iter_position" else None
         if not (src is not None and Q.path_of(src) == want and pred is not None and pred.op == "eq" and
-                any(c10._strip(x) is bits for x in pred.args) and
-                any(Q.contains(x, lambda z: z.op == "elem") and c10._strip(x) is not bits for x in pred.args)):
+                any(c10._strip(x) is bits or c10._strip(x) is pfx_ for x in pred.args) and
+                any(Q.contains(x, lambda z: z.op == "elem") and c10._strip(x) is not bits and c10._strip(x) is not pfx_ for x in pred.args)):
             okidx = False
     ctx.add(rule, root + "#removed-is-covering-prefix", okidx,
             "the removed element must be the covering node (the position the prefix lookup returned, or the position of the "
